@@ -67,7 +67,9 @@ Definition cmp1 (r : sres) (o : ostep) : N :=
           end) 32)%N.
 
 (* 0 = the model agrees with the observation at every step; otherwise 64 * (1 + index of the first
-   disagreeing step) + its mismatch bits *)
+   disagreeing step) + its mismatch bits; 2^20 + 64 * (1 + index) = at that step the model declares the
+   behaviour outside itself (shutil.move's copytree fallback for a folder moved below a missing parent):
+   the comparison of the session ends there *)
 (* what C11_reopen says comes back from History.write + _load_history *)
 Definition reopened (s : hist) : hist := Hist (h_fs s) (trim (h_limit s) (h_undo s)) (h_redo s) (h_limit s).
 
@@ -81,7 +83,9 @@ Fixpoint walk (bp : bool) (v : variant) (ign : list N -> bool) (i : N) (l : list
                | None => hstep bp v fuel ign (t_op o) s (Sched None (t_stop o) false false)
                end in
       let w := cmp1 r o in
-      if N.eqb w 0 then walk bp v ign (i + 1)%N rest (sres_state r)
+      if match r with SErr _ _ x => artefact x | _ => false end
+      then (1048576 + 64 * (i + 1))%N       (* the model declares the behaviour outside itself (C10: Unmodelled / fuel) *)
+      else if N.eqb w 0 then walk bp v ign (i + 1)%N rest (sres_state r)
       else (64 * (i + 1) + w)%N
   end.
 
